@@ -595,10 +595,10 @@ pub fn print(p: &Program) -> Printed {
                     params,
                     body,
                 } => {
+                    // The binding construct includes the annotation lines of the declaration.
                     for a in anns {
                         pr.line_annotation(a);
                     }
-                    let start = pr.out.len();
                     pr.tok("let");
                     let oi = pr.occ(OccKind::DeclName, name);
                     for x in params {
